@@ -56,13 +56,13 @@ CHECKS["C08"] = {
 CHECKS["C09"] = {
     "level": "exploration",
     "subs": [
-        _sub("TestC09_Vacuum", 1600, 80000, sq=16, st=16),
+        _sub("TestC09_Vacuum", 1600, 40000, sq=16, st=16),
     ],
 }
 CHECKS["C10"] = {
     "level": "exploration",
     "subs": [
-        _sub("TestC10_Reclaim", 1000, 60000, sq=12, st=12),
+        _sub("TestC10_Reclaim", 1000, 30000, sq=12, st=12),
         _sub("TestC10_KVCutoff", 3000, 120000, sq=4, st=4),
     ],
 }
@@ -128,7 +128,7 @@ CHECKS["C20"] = {
 CHECKS["C18"] = {
     "level": "exploration",
     "subs": [
-        _sub("TestC18_Box", 16000, 2000000, sq=10, st=10),
+        _sub("TestC18_Box", 16000, 400000, sq=10, st=10),
         _sub("TestC18_KV", 1500, 60000, sq=6, st=6),
         {"test": "FuzzDecrypt", "kind": "fuzz", "fuzztime": "120s", "workers": 6, "cases": {"quick": 0, "thorough": 0},
          "rule": "native go fuzzing of V1NodeEncryptor.Decrypt seeded with valid ciphertexts of both formats: never panics; whatever it accepts must be byte-identical to a message sealed (by the encryptor, by the harness's sealer for the earlier format, or by NaCl secretbox) from the returned plaintext under the nonce in front; distinct non-trivial = inputs that reached new coverage"},
